@@ -388,6 +388,9 @@ class Interp:
                     return Opaque(e.id)
             if e.id in _PY_BUILTINS:
                 return _Builtin(e.id)
+            import builtins as _b
+            if hasattr(_b, e.id) and self.ix.resolve(env["__module__"], e.id) is None:
+                return _Builtin(e.id)       # any other Python builtin (slice, round, repr, exception classes ...)
             return self.module_global(env["__module__"], e.id)
         if isinstance(e, ast.Tuple):
             return tuple(self._elts(e.elts, env))
